@@ -17,11 +17,11 @@ from vp.val import cN, cbool, clist, cpair, copt
 def key_coq(k):
     return '{| k_peer := %s; k_sh := %s; k_ix := %s; k_pid := %s |}' % tuple(cN(x) for x in k)
 
-OPC = {'up': 3, 'down': 4, 'reset': 5, 'pol': 6, 'grdown': 7, 'dstale': 8, 'dropfam': 9, 'nhv': 10, 'mllgr': 11, 'unsub': 13}
+OPC = {'up': 3, 'down': 4, 'reset': 5, 'pol': 6, 'grdown': 7, 'dstale': 8, 'dropfam': 9, 'nhv': 10, 'mllgr': 11, 'dllgr': 12, 'unsub': 13}
 COQ = {'up': 'Up', 'down': 'Down', 'reset': 'SoftReset', 'pol': 'SetPol', 'grdown': 'GrDown', 'dstale': 'DropStale',
-       'dropfam': 'DropFam', 'nhv': 'Nhv', 'mllgr': 'MarkLlgr'}
+       'dropfam': 'DropFam', 'nhv': 'Nhv', 'mllgr': 'MarkLlgr', 'dllgr': 'DropLlgr'}
 NSTEPS = {'sub': 3, 'unsub': 1, 'ins': 2, 'rem': 2, 'up': 1, 'down': 4, 'grdown': 4, 'dstale': 3, 'dropfam': 3,
-          'reset': 3, 'pol': 1, 'nhv': 3, 'mllgr': 3}
+          'reset': 3, 'pol': 1, 'nhv': 3, 'mllgr': 3, 'dllgr': 3}
 
 def op_slot(o):
     return o[1] if len(o) > 1 else 0
@@ -73,7 +73,7 @@ class Prop:
                            'fold by bmp.rs apply_snapshot / track_peer_*')
     rule = ('a case is (programs of <= 3 threads, schedule); non-trivial when a subscription registers while another thread still has '
             'steps to run and at least one route event is delivered to it; distinct = distinct (programs, canonical event sequences); '
-            'every run enumerates ALL interleavings of subscribe with each mutator kind from each of three start states (classes '
+            'every run enumerates ALL interleavings of subscribe with each mutator kind (16, incl. mark_llgr_stale and drop_llgr_stale_families) from each of six start states (classes '
             'race:<mutator>:<state>), two-subscriber and unsubscribe/resubscribe classes, and the track_peer state x input matrix; '
             'the thorough tier adds every interleaving (12600 schedules) of subscribe || one session thread || soft_reset_in')
     exhaustive = {'quick': False, 'thorough': False}
@@ -144,13 +144,15 @@ class Prop:
             # attribute blocks 4.. carry NO_LLGR (the boundary 3 / 4 on both shards, another peer's NO_LLGR path, a stale one)
             'nollgr_routes': [('ins', K(1, 0), 4), ('ins', K(1, 1), 3), ('ins', K(1, 1, 1), 5), ('ins', K(2, 0), 6)],
             'nollgr_stale': [('ins', K(1, 0), 4), ('ins', K(1, 1), 7), ('grdown', 1)],
+            # Sources marked LLGR-stale, paths retained; another peer's and a later session's paths are not marked
+            'llgr_marked': [('ins', K(1, 0), 1), ('ins', K(1, 1), 2), ('ins', K(2, 0), 3), ('mllgr', 1), ('ins', K(2, 1), 1)],
         }
         mutators = {
             'ins_new': [('ins', K(1, 1, 1), 0)], 'ins_replace': [('ins', K(1, 0), 0)], 'rem': [('rem', K(1, 0))],
             'rem_absent': [('rem', K(1, 0, 3))], 'down': [('down', 1)], 'grdown': [('grdown', 1)],
             'dstale': [('dstale', 1)], 'dropfam': [('dropfam', 1)], 'reset_after_policy_change': [('pol', 2), ('reset', 1)],
             'reset': [('reset', 1)], 'pol': [('pol', 2)], 'up': [('up', 1)], 'nhv': [('nhv', 1)], 'addpath': [('ins', K(1, 0, 0, 1), 2)],
-            'mllgr': [('mllgr', 1)],
+            'mllgr': [('mllgr', 1)], 'dllgr': [('dllgr', 1)],
         }
         for sname, pre in states.items():
             npre = sum(NSTEPS[o[0]] for o in pre)
@@ -204,6 +206,7 @@ class Prop:
             elif x < 0.80: ops.append(('dstale', p))
             elif x < 0.83: ops.append(('dropfam', p))
             elif x < 0.86: ops.append(('mllgr', p))
+            elif x < 0.88: ops.append(('dllgr', p))
             elif x < 0.92: ops.append(('reset', rng.choice([1, 2, 3])))
             elif x < 0.95: ops.append(('nhv', rng.choice([1, 2])))
             else: ops.append(('pol', rng.choice([0, 1, 2])))
